@@ -111,6 +111,9 @@ def generate(rng, tier, index):
         # request size of the (interrupted) tool run itself: mostly small, so that its scan has
         # several steps
         plan["cli_rpc"] = rng.choice([None, 1, 2, 2, 3])
+        # S2: the disk is STILL full when the first default open after the failed creation runs
+        # (an open that was not asked to write must not need room)
+        plan["still_full"] = rng.random() < 0.4
         if plan["writer"] == "cli" and plan["preexisting"] not in ("moved", "stale") \
                 and rng.random() < 0.7:
             # the tool's protocol may have several steps per image (journal, temp file, marker):
@@ -622,6 +625,14 @@ def _run_s1_s2_once(c, ref, docs, hashdir, at):
         if all(now.get(name + ".index") == d for name, d in (c.stale_docs or {}).items()):
             c.bump("stale-untouched")
             return
+    if scen == "S2" and fired and plan.get("still_full"):
+        SIM.disk_full = True
+        try:
+            c.bump("opens-with-disk-still-full")
+            if not c.default_open_ok(ref, where + ":disk-still-full", **ctx):
+                return
+        finally:
+            SIM.disk_full = False
     ok = c.default_open_ok(ref, where, **ctx)
     if ok and writer == "cli" and plan.get("tool_rerun_rpc", "no") != "no":
         # "a later successful creation repairs it" - here by the tool itself, with another rpc
